@@ -40,11 +40,11 @@ def verify_function(key, want_props=None, cross=False):
            'assumptions': [], 'trusted': [], 'inlined': [], 'used_contracts': []}
     try:
         repo = Repo()
-        if key not in repo.funcs:
+        if key.split('#')[0] not in repo.funcs:
             out['status'] = 'missing'
             out['error'] = f'function {key} not found in the working tree'
             return out
-        fi = repo.funcs[key]
+        fi = repo.funcs[key.split('#')[0]]
         out['file'], out['lines'], out['sha256'] = fi.file, list(fi.lines), fi.sha256
         c = REGISTRY[key]
         out['bounded_clauses'] = [cl.label for cl in c.ensures if cl.bounded]
